@@ -554,6 +554,7 @@ def _run_strong_sim(
     backend: Callable[[tuple[int, MPS, NoiseModel | None, StrongSimParams, QuantumCircuit]], Any] = digital_tjm
 
     # If there's no noise at all, we don't need multiple trajectories
+    requested_num_traj = sim_params.num_traj
     if noise_model is None or all(proc["strength"] == 0 for proc in noise_model.processes):
         sim_params.num_traj = 1
     else:
@@ -617,6 +618,8 @@ def _run_strong_sim(
 
     # Reduce per-trajectory results into final arrays/statistics per observable
     sim_params.aggregate_trajectories()
+    # The single-trajectory shortcut is a property of this run, not of the parameter object
+    sim_params.num_traj = requested_num_traj
 
 
 # ---------------------------------------------------------------------------
@@ -795,6 +798,7 @@ def _run_analog(
         backend = analog_tjm_2
 
     # If no noise, determinism implies a single trajectory suffices
+    requested_num_traj = sim_params.num_traj
     if (
         noise_model is None
         or all(proc["strength"] == 0 for proc in noise_model.processes)
@@ -869,6 +873,8 @@ def _run_analog(
 
     # Aggregate per-trajectory data into final arrays/statistics
     sim_params.aggregate_trajectories()
+    # The single-trajectory shortcut is a property of this run, not of the parameter object
+    sim_params.num_traj = requested_num_traj
 
 
 # ---------------------------------------------------------------------------
